@@ -215,3 +215,34 @@ Theorem C18_injection_order_matters_refuted :
     get_scriptlet_resources st [i1; i2] <> get_scriptlet_resources st [i2; i1].
 Proof. exact injection_order_matters_refuted. Qed.
 Print Assumptions C18_injection_order_matters_refuted.
+
+(* ---- the permission gate and the dependency walk, re-read from src/resources/resource_storage.rs
+   on every run (tools/gen_fragments/c18_deps_structure.py -> Generated.DepsGen): the statements of
+   `recursive_dependencies` in source order, interpreted with the model in the place of the
+   recursive calls, ARE one unfolding of the model (the fixpoint equation); the gate comes before the
+   "already collected" test, so every dependency that is reached is gated. ---- *)
+From Adb Require Struct_Deps_Proofs.
+Theorem C18_src_get_permissioned_resource_is_model : forall (st : store) (name : str) (p : N),
+  Struct_Deps_Proofs.interp_gpr st name p = Some (get_permissioned_resource st name p).
+Proof. exact Struct_Deps_Proofs.interp_gpr_is_model. Qed.
+Print Assumptions C18_src_get_permissioned_resource_is_model.
+
+Theorem C18_src_recursive_dependencies_is_model :
+  forall (f : nat) (st : store) (new_dep : str) (prev : list resource) (p : N),
+  Struct_Deps_Proofs.interp_rd_body (fun d q => recursive_dependencies f st d q p) st new_dep prev p =
+  Some (recursive_dependencies (S f) st new_dep prev p).
+Proof. exact Struct_Deps_Proofs.interp_rd_body_is_unfolding. Qed.
+Print Assumptions C18_src_recursive_dependencies_is_model.
+
+Theorem C18_src_gate_before_collected_test :
+  forall (f : nat) (st : store) (new_dep : str) (prev : list resource) (p : N) (e : serr),
+  get_permissioned_resource st new_dep p = SErr e ->
+  Struct_Deps_Proofs.interp_rd_body (fun d q => recursive_dependencies f st d q p) st new_dep prev p =
+  Some (prev, Some e).
+Proof. exact Struct_Deps_Proofs.gate_before_collected_test. Qed.
+Print Assumptions C18_src_gate_before_collected_test.
+
+Theorem C18_src_scriptlet_order :
+  DepsGen.scriptlet_order = [DepsGen.G_gate; DepsGen.G_kind; DepsGen.G_deps; DepsGen.G_push_self_if_absent].
+Proof. exact Struct_Deps_Proofs.scriptlet_order_is_model. Qed.
+Print Assumptions C18_src_scriptlet_order.
